@@ -525,22 +525,30 @@ def c10_single(v):
 
 
 def c10_pair(vn, vf):
-    """d: every job runs at the same times in the nested tree and in the flattened graph"""
+    """d: every job runs at the same times in the nested tree and in the flattened graph.
+    Ties: from the instant a critical job raises, the nested tree needs a few more event-loop iterations than the
+    flat graph to abort everything (each level reacts in turn), so what happens *at that very instant or later* to jobs
+    that get cancelled may differ (a job may begin and be cancelled at once in one run, never begin in the other)."""
     V = []
+    def abort_instant(v):
+        ts = [f[1] for n, f in v.fin.items() if f[2] in ("raise", "rraise") and v.info[n]["crit"]]
+        return min(ts) if ts else INF
+    ta = min(abort_instant(vn), abort_instant(vf))
     for j, b in vn.began.items():
         if vn.is_sched(j):
             continue
         if j not in vf.began:
-            if "hang" not in vf.res:
+            if "hang" not in vf.res and b[1] < ta:
                 V.append("C10 %s runs in the nested tree but not in the flattened graph" % j)
             continue
         if vf.began[j][1] != b[1]:
             V.append("C10 %s begins at t=%d nested, t=%d flattened" % (j, b[1], vf.began[j][1]))
         sa, sb = vn.stop.get(j), vf.stop.get(j)
         if (sa is None) != (sb is None) or (sa and (sa[1], sa[2]) != (sb[1], sb[2])):
-            V.append("C10 %s ends %s nested, %s flattened" % (j, sa and sa[1:], sb and sb[1:]))
-    for j in vf.began:
-        if j not in vn.began and not vf.is_sched(j):
+            if not (sa and sb and sa[1] >= ta and sb[1] >= ta and {sa[2], sb[2]} & {"cdone"}):
+                V.append("C10 %s ends %s nested, %s flattened" % (j, sa and sa[1:], sb and sb[1:]))
+    for j, b in vf.began.items():
+        if j not in vn.began and not vf.is_sched(j) and b[1] < ta:
             V.append("C10 %s runs in the flattened graph but not in the nested tree" % j)
     return V
 
